@@ -195,6 +195,22 @@ class Cache:
             self._norm_cased_files[norm_cased_filename] = None
             self._rebuilt_files.add(filename)
 
+    def cancel_building_file(self, filename):
+        """Undo a call to ``start_building_file``.
+
+        This is for the case where there is an error after calling
+        ``start_building_file(filename)``, but before we start calling
+        the function passed to
+        ``FileBuilder.build_file_with_comparison``.
+
+        Arguments:
+            filename (str): The non-norm-cased filename.
+        """
+        with self._files_lock:
+            self._files.pop(filename, None)
+            self._norm_cased_files.pop(os.path.normcase(filename), None)
+            self._rebuilt_files.discard(filename)
+
     def rebuilt_files(self):
         """Return the files we have started building in this build.
 
